@@ -3179,6 +3179,11 @@ def zip64_scenarios(tier, rnd):
         ops.append({"op": "finish"})
         s = writer_sc("count-%d" % n, ops, select=[1, 2, 65534, 65535, 65536, 65537, -1])
         scs.append(s)
+    # a central DIRECTORY larger than 4 GiB with fewer than 65 536 entries (65 535 records of 65 552 bytes: a 65 500-byte central-only
+    # extra record each): the ZIP64 end records are needed for the directory's size alone
+    if tier == "thorough":
+        ops = [{"op": "bulk", "count": 65535, "prefix": "x", "data": "d", "dirs_every": 0, "cextra": 65500}, {"op": "finish"}]
+        scs.append(writer_sc("cdsize-4g", ops, select=[1, 2, 65534, 65535]))
     # append rounds across the limits (C13): the old entries stay, the new ones follow, the end records are re-emitted
     for base, more in ([(65535, 2)] if tier == "quick" else [(65534, 1), (65535, 2), (65536, 5), (65535, 0)]):
         ops = [{"op": "bulk", "count": base, "prefix": "e", "data": "", "dirs_every": 0}, {"op": "finish"}, {"op": "append"},
@@ -3438,7 +3443,7 @@ def c08(tier):
                       "65535 / 65536 (thorough 65534..70000) entries, foreign sparse archives with >4 GiB entries and forced ZIP64 fields; the independently "
                       "lexed records (exact two-limb numbers) must satisfy Zip64!CentralOk/CentralWriter/LocalAgrees/LocalWriter/EndOk/EndWriter, the real reader "
                       "must report exactly the lexed values, entry counts/names in order (digest) and contents (length, markers, zero run, CRC from zlib) must match",
-                      assumptions=["payloads are zero runs between markers (the sparse store keeps only non-zero pages)", "a central directory larger than 4 GiB is not realised",
+                      assumptions=["payloads are zero runs between markers (the sparse store keeps only non-zero pages)", "a central directory larger than 4 GiB is realised in the thorough tier only (65 535 records of 65 552 bytes; 14 GB of memory)",
                                    "per-entry records are validated for the selected boundary entries; all entries contribute to the count/name digest and lexer-level flags"])
 
 
